@@ -63,8 +63,27 @@ def satisfied_vs_straddling(rng):
                 settings=problems.rand_settings(rng), np_seed=rng.randint(0, 10 ** 6))
 
 
+def enforced_changes_vs_keep(rng):
+    """an objective asking for changes at listed positions (the list as a user writes it, unsorted) against an objective
+    that favours the original nucleotides; optimized twice"""
+    from gen import hard
+    n = rng.randint(10, 24)
+    seq = hard.rand_seq(rng, n)
+    idx = rng.sample(range(n), rng.randint(2, min(6, n)))
+    strong = dict(kind="change_obj", location=None, indices=idx, amount_percent=None, boost=rng.choice([2, 3]))
+    if rng.random() < 0.5:
+        weak = dict(kind="keep_obj", location=None if rng.random() < 0.5 else [0, n, 0], boost=1)
+    else:
+        weak = dict(kind="sequence_obj", sequence=seq, location=[0, n, 1], boost=1)
+    objs = [weak, strong] if rng.random() < 0.7 else [strong, weak]
+    return dict(sequence=seq, constraints=[], objectives=objs, settings=problems.rand_settings(rng), np_seed=rng.randint(0, 10 ** 6))
+
+
 def gen_cases(rng, n):
     for i in range(n):
+        if i % 7 == 5:
+            yield dict(desc=enforced_changes_vs_keep(rng), op="optimize", pre_ops=("optimize",))
+            continue
         if i % 5 == 3:
             yield dict(desc=satisfied_vs_straddling(rng), op="optimize", pre_ops=())
             continue
